@@ -109,7 +109,27 @@ def check_case(case, ctx):
                                        'relative_to_match': rel} if nontrivial else None)
 
 
+def layout_strategy():
+    """Group layouts built on purpose: 2-5 capturing groups in a row, each named or unnamed (any order), optionally
+    optional / empty-capable / inside an alternation / nested in another capture, separated by small literals."""
+    atom = st.sampled_from([['lit', 'a', True], ['lit', 'b', False], ['cls', ['named', 'AnyDigit']], ['cls', ['named', 'AnyLetter']],
+                            ['lit', '-', True], ['q', 'star', 'class', ['lit', 'a', True], 0, None, True],
+                            ['q', 'opt', 'method', ['cls', ['named', 'AnyDigit']], 0, None, True], ['lit', 'ab', True]])
+    name = st.one_of(st.none(), st.none(), st.sampled_from(dsl.NAMES))
+    sp = st.sampled_from(['class', 'method'])
+    cap = st.tuples(sp, atom, name).map(lambda t: ['cap', t[0], t[1], t[2]])
+    nested = st.tuples(sp, sp, atom, atom, name, name).map(
+        lambda t: ['cap', t[0], ['cat', 'class', [t[2], ['cap', t[1], t[3], t[5]]]], t[4]])
+    opt = st.tuples(st.one_of(cap, nested), st.booleans()).map(lambda t: ['q', 'opt', 'class', t[0], 0, None, t[1]])
+    alt = st.tuples(cap, cap).map(lambda t: ['alt', 'class', [t[0], t[1]]])
+    item = st.one_of(cap, cap, cap, nested, opt, opt, alt, atom)
+    return st.lists(item, min_size=2, max_size=5).map(lambda xs: dsl.uniquify_names(['cat', 'class', xs]))
+
+
 def strategy(spec, ctx):
+    if ctx.shard_index % 2 == 0:
+        return st.fixed_dictionaries({'tree': layout_strategy(), 'tseed': st.integers(0, 2 ** 16),
+                                      'include_empty': st.booleans(), 'relative': st.booleans()})
     feats = ['cap', 'cap', 'cap', 'cat', 'alt', 'q', 'grp', 'cls', 'strarg', 'look', 'enc']
     if ctx.shard_index % 3 == 1:
         feats = ['cap', 'cat', 'q', 'alt']
@@ -123,7 +143,7 @@ def strategy(spec, ctx):
 
 def shards(tier):
     n = 16 if tier == 'quick' else 64
-    return [{'examples': 300 if tier == 'quick' else 2500} for _ in range(n)]
+    return [{'examples': 1000 if tier == 'quick' else 8000} for _ in range(n)]
 
 
 def run_shard(spec, ctx):
